@@ -519,7 +519,8 @@ func (f *Frame) instr(in ssa.Instruction) {
 			s := f.val(in.X)
 			f.safety("index", e.inBounds(idx, fmt.Sprintf("(s_len %s)", s)), in)
 			f.places[in] = &Place{kind: "elem", comp: elemCompName(e, u.Elem()), ref: fmt.Sprintf("(s_arr %s)", s),
-				idx: e.define(f.prefix+"ix", e.idxSort(), e.idxAdd(fmt.Sprintf("(s_off %s)", s), idx)), typ: u.Elem()}
+				idx: e.define(f.prefix+"ix", e.idxSort(), e.idxAdd(fmt.Sprintf("(s_off %s)", s), idx)), typ: u.Elem(),
+				off: fmt.Sprintf("(s_off %s)", s), rel: idx}
 		case *types.Pointer:
 			arr := u.Elem().Underlying().(*types.Array)
 			f.safety("index", e.inBounds(idx, e.idxLit(fmt.Sprint(arr.Len()))), in)
